@@ -84,7 +84,7 @@ func (p *Proxy) GetAttr(name string) (Object, bool) {
 		} else {
 			value = reflect.ValueOf(p.obj).FieldByName(name)
 		}
-		if value.Kind() == reflect.Struct && value.CanAddr() {
+		if value.Kind() == reflect.Struct && value.CanAddr() && value.Type() != timeType {
 			value = value.Addr()
 		}
 		result, err := conv.From(value.Interface())
